@@ -31,13 +31,38 @@ COMPACT = lemmas.COMPACT
 
 
 def input_only_through_sorted_set(repo):
-    """Every read of the parameter `cells` in compact is `len(cells)` or the argument of set(...) inside sorted(...)."""
+    """Every read of the parameter `cells` in compact is `len(cells)` or the sole argument of set(..) / frozenset(..),
+    and that set value is consumed only by sorted(..) (directly, or through one local that is itself only read by
+    sorted(..) / len(..)) - so the working list is a function of the input SET."""
     mod, fnode, _ = repo.function(COMPACT)
     p = fnode.args.args[0].arg
     parents = {}
     for n in ast.walk(fnode):
         for c in ast.iter_child_nodes(n):
             parents[c] = n
+
+    def is_call(node, names):
+        return isinstance(node, ast.Call) and isinstance(node.func, ast.Name) and node.func.id in names
+
+    def consumed_by_sorted(node, depth=0):
+        """node evaluates to the set: it must be argument 0 of sorted(..), or be bound to a local used only that way."""
+        par = parents.get(node)
+        if is_call(par, ("sorted",)) and par.args and par.args[0] is node:
+            return True
+        if depth == 0 and isinstance(par, ast.Assign) and len(par.targets) == 1 and isinstance(par.targets[0], ast.Name) and par.value is node:
+            x = par.targets[0].id
+            stores = [n for n in ast.walk(fnode) if isinstance(n, ast.Name) and n.id == x and isinstance(n.ctx, ast.Store)]
+            if len(stores) != 1 or x == p:
+                return False
+            for n in ast.walk(fnode):
+                if isinstance(n, ast.Name) and n.id == x and isinstance(n.ctx, ast.Load):
+                    pp = parents.get(n)
+                    if is_call(pp, ("len",)) and len(pp.args) == 1:
+                        continue
+                    if not consumed_by_sorted(n, 1):
+                        return False
+            return True
+        return False
     bad = []
     for n in ast.walk(fnode):
         if isinstance(n, ast.Name) and n.id == p:
@@ -46,12 +71,10 @@ def input_only_through_sorted_set(repo):
                 continue
             par = parents.get(n)
             ok = False
-            if isinstance(par, ast.Call) and isinstance(par.func, ast.Name) and par.func.id == "len":
+            if is_call(par, ("len",)) and len(par.args) == 1:
                 ok = True
-            if isinstance(par, ast.Call) and isinstance(par.func, ast.Name) and par.func.id == "set" and len(par.args) == 1:
-                gp = parents.get(par)
-                if isinstance(gp, ast.Call) and isinstance(gp.func, ast.Name) and gp.func.id == "sorted" and gp.args and gp.args[0] is par:
-                    ok = True
+            if is_call(par, ("set", "frozenset")) and len(par.args) == 1 and not par.keywords and consumed_by_sorted(par):
+                ok = True
             if not ok:
                 bad.append("line %d: `%s` read outside len(..) / sorted(set(..))" % (n.lineno, p))
     return bad
